@@ -2,6 +2,7 @@ import VecModel.Lemmas.Sparse
 import VecModel.Lemmas.BPE
 import VecModel.Props.C06
 import VecModel.Props.C16
+import VecModel.Model.Histogram
 /-
   C01 — transform returns one row per input item in the fitted column space.
   Generic part: every row-producing vectorizer's `transform` is an instance of
@@ -152,5 +153,31 @@ theorem bpe_matrix_row_width (cols : List Int) (enc : List Int) :
   intro c hc
   have : extra.count c = 0 := List.count_eq_zero.mpr (hex c hc)
   simp [List.count_append, this]
+
+/-- HistogramVectorizer.transform: one row per sequence, one column per fitted interval — whatever the
+values are (values outside every interval leave the counts, never the shape; empty sequences give a row). -/
+theorem histogram_fitted_shape (bins : List Hist.Bin) (X : List (List Rat)) :
+    (X.map (Hist.counts bins)).length = X.length ∧
+    ∀ r ∈ X.map (Hist.counts bins), r.length = bins.length := by
+  refine ⟨by simp, ?_⟩
+  intro r hr
+  obtain ⟨xs, _, rfl⟩ := List.mem_map.mp hr
+  simp [Hist.counts]
+
+/-- KDEVectorizer.transform: one row per sequence, one column per point of the fitted evaluation grid
+(any number type, kernel and bandwidth; empty sequences included). -/
+theorem kde_fitted_shape {α : Type} [Add α] [Sub α] [Mul α] [Div α] [OfNat α 0] [NatCast α]
+    (K : α → α) (h : α) (grid : List α) (X : List (List α)) :
+    (X.map (Hist.kdeRow K h grid)).length = X.length ∧
+    ∀ r ∈ X.map (Hist.kdeRow K h grid), r.length = grid.length := by
+  refine ⟨by simp, ?_⟩
+  intro r hr
+  obtain ⟨xs, _, rfl⟩ := List.mem_map.mp hr
+  simp [Hist.kdeRow]
+
+/-- non-vacuity: an empty sequence and an all-outlier sequence still give rows of the fitted width -/
+example : [[], [-100, 100], [1, 5]].map
+    (Hist.counts [⟨.fin 0, .fin 4⟩, ⟨.fin 4, .fin 7⟩, ⟨.fin 7, .fin 20⟩]) = [[0, 0, 0], [0, 0, 0], [1, 1, 0]] := by
+  decide
 
 end VecModel.C01
